@@ -263,6 +263,26 @@ func GenCase(seed int64, idx int, pool []*ChainInfo) *CaseSpec {
 	if extJoin && v0 > L-4 {
 		v0 = L/2 + int32(rng.Intn(int(L/4)+1))
 	}
+	// Tip-relevant family: the batch's END block is the one that creates or
+	// spends the focus outpoint, the focus starts exactly there and joins
+	// while the batch is already working on that block.
+	var forced *wire.OutPoint
+	if idx%9 == 4 && !extJoin {
+		if op, ok := pick(rng, ci.SpentLater); ok {
+			h := ci.Spent[op].Height
+			if rng.Intn(2) == 0 {
+				h = ci.Created[op.Hash].Height
+			}
+			if h >= 3 && h <= L {
+				v0 = h
+				op := op
+				forced = &op
+				cs.PlanOp, cs.PlanStart = "spent-later", "tip"
+				cs.PlanArrival = []string{"block-equal", "filter-equal", "block-equal"}[rng.Intn(3)]
+				cs.PlanFault = "none"
+			}
+		}
+	}
 	cs.V0 = v0
 	var exts []int32
 	for v := v0; v < L && len(exts) < 2 && (rng.Intn(3) > 0 || extJoin && len(exts) == 0); {
@@ -284,6 +304,9 @@ func GenCase(seed int64, idx int, pool []*ChainInfo) *CaseSpec {
 	// attached to later or unrelated gates, see below; the measured relation
 	// is what enters the fingerprint).
 	fop, fscript, fkind := g.pickOp(cs.PlanOp)
+	if forced != nil {
+		fop, fscript, fkind = *forced, ci.ScriptOf(*forced), "spent-later"
+	}
 	if extJoin && len(exts) > 0 {
 		// The best height grows while the batch runs, THEN the focus joins
 		// the batch: prefer an outpoint whose spend lies in the new blocks.
